@@ -210,6 +210,7 @@ func init() {
 			func(s *e1.Stats) bool {
 				return marks(s, "comp-change:2-subscribers-1-other", "comp-change:no-subscriber")
 			})
+		partStepThrough(c, a, []string{"compupd-vs-unsub", "leave"})
 		return a.finish(c)
 	}
 	registry["C14"] = func(c *check.Ctx) int {
@@ -228,7 +229,8 @@ func init() {
 			func(s *e1.Stats) bool {
 				return marks(s, "action:older-timestamp", "action:equal-timestamp", "asset:replacement-attempt") && s.Joins >= 2
 			})
-		partStepThrough(c, a, []string{"action-vs-action", "action-vs-delete", "action-vs-leave", "delete", "leave"})
+		partStepThrough(c, a, []string{"action-vs-action", "action-vs-delete", "action-vs-leave", "delete", "leave", "join"})
+		partStepPairs(c, a, [][2]string{{"join", "join2"}})
 		return a.finish(c)
 	}
 }
